@@ -361,6 +361,14 @@ def gen_stub_config(rng, nphase=None, nel=None, temperature='const', allow_gb=Tr
         cons['minComposition'] = rng.choice([0, 1e-8, round(min(cfg['x0']) * 0.1, 8), round(min(cfg['x0']) * 0.5, 8), round(min(cfg['x0']) * 0.9, 8)])
     if rng.random() < 0.15:
         cons['dtScale'] = rng.choice([1e-2, 0.1])
+    if rng.random() < 0.08:
+        cons['minRadius'] = rng.choice([1.5e-10, 5e-10])
+    if rng.random() < 0.08:
+        cons['maxDissolution'] = rng.choice([1e-2, 1e-4])
+    if rng.random() < 0.08:
+        cons['maxNucleationRateChange'] = rng.choice([0.1, 1.0])
+    if rng.random() < 0.06:
+        cons['minNucleationRate'] = rng.choice([1e-10, 1.0])
     cfg['constraints'] = cons
     if nel == 1 and rng.random() < 0.3:
         cfg['betaBinary'] = 2
